@@ -70,6 +70,21 @@ def bin_completion(binner: Binner, binsize: float, items: List[Any])->BinsArray:
     Bin #3: [93, 4], sum=97.0
     Bin #4: [8], sum=8.0
     """
+    # The search below works on numbers; run it on the item values and map the result back to the items.
+    items = list(items)
+    value_binner = BinnerKeepingContents()
+    value_bins = _bin_completion_of_values(value_binner, binsize, [binner.valueof(item) for item in items])
+    items_by_value = {}
+    for item in items:
+        items_by_value.setdefault(binner.valueof(item), []).append(item)
+    bins = binner.new_bins(value_binner.numbins(value_bins))
+    for ibin, bin_values in enumerate(value_bins[1]):
+        for value in bin_values:
+            binner.add_item_to_bin(bins, items_by_value[value].pop(0), ibin)
+    return bins
+
+
+def _bin_completion_of_values(binner: Binner, binsize: float, items: List[float])->BinsArray:
     # Test if there is an item with a value larger than binsize.
     for item in items:
         if binner.valueof(item) > binsize:
